@@ -284,15 +284,20 @@ def run(ctx):
                  "cache_activate does not start from an empty per-object cache")
 
     # ------------------------------------------------------------------- R5
-    ctx.rule("C16.R5", "as_dict: type and name validation dominate the first query; "
+    ctx.rule("C16.R5", "as_dict: the queries run inside one oneshot() block; type and name validation dominate the first query; "
              "exactly the iterated names become keys; AccessDenied/ZombieProcess -> "
              "ad_value; NoSuchProcess is not swallowed", floor=4)
     ad = repo.func("psutil", "Process.as_dict")
     cfg = A.cfg(ad)
     withs = [n for n in cfg.nodes if n.kind == "with"
              and any("oneshot" in norm_stmt(i.context_expr) for i in n.stmt.items)]
-    ctx.require(withs, "as_dict no longer uses self.oneshot()")
-    wn = withs[0]
+    if withs:
+        wn = withs[0]
+    else:
+        # no block: "before querying anything" is then "before the attribute loop"
+        loops0 = [s_ for s_ in ast.walk(ad.node) if isinstance(s_, ast.For)]
+        ctx.require(loops0, "as_dict: neither a oneshot() block nor an attribute loop found")
+        wn = cfg.nodes_of(loops0[0])[0]
     raises = {("TypeError" if "TypeError" in norm_stmt(n.stmt) else
                "ValueError" if "ValueError" in norm_stmt(n.stmt) else "?"): n
               for n in cfg.nodes if n.kind == "raise"}
@@ -362,6 +367,18 @@ def run(ctx):
     else:
         ctx.fail("C16.R5", "keys", ad.file, lp.lineno, ad.qual,
                  "returned keys are no longer exactly the requested names")
+    # the queries run inside one oneshot() block (sources read once for the dict)
+    inwith = [w_ for w_ in ast.walk(ad.node) if isinstance(w_, ast.With)
+              and any(isinstance(i.context_expr, ast.Call)
+                      and dotted(i.context_expr.func) == "self.oneshot" for i in w_.items)
+              and any(x is lp for b in w_.body for x in ast.walk(b))]
+    if inwith:
+        ctx.ok("C16.R5", "in-oneshot", sample="with self.oneshot(): for name in ...")
+    else:
+        ctx.fail("C16.R5", "in-oneshot", ad.file, lp.lineno, ad.qual,
+                 "as_dict() no longer queries the attributes inside `with self.oneshot()`: "
+                 "the shared records are read once per attribute and the values come from "
+                 "different snapshots")
     # handler policy
     tr = [x for x in ast.walk(lp) if isinstance(x, ast.Try)]
     ctx.require(tr, "as_dict: per-attribute try vanished")
